@@ -766,3 +766,222 @@ Proof.
       destruct (method_year _ _ _ _ _ Hm HX Ed C2 EM) as (st & -> & Es).
       exact (year_count _ _ _ _ _ _ _ _ Hm HX Ed C2 Es Vlo Vt1 Mlo Et1' R).
 Qed.
+
+(* ======================================================================== *)
+(* The row of a method: its tick set and its bounds, as FUNCTIONS of the
+   method (no existential), used by C16_gap_implies_alignment and by the
+   time part of C14 (Time/NiceBoundProofs.v).                               *)
+From Labella Require Scale.Ticks Scale.IlogProofs Scale.TickStepProofs.
+
+Definition meth_ticks (meth : tick_method) : Z -> Prop :=
+  match meth with
+  | TMillis stq => fun z => z mod (1000 * Z.max 1 (qtrunc stq)) = 0
+  | TUnit u sk => tickset u (skip_of sk)
+  end.
+
+(* (separation, density) in microseconds; k = the integer skip *)
+Definition meth_bounds (meth : tick_method) : Z * Z :=
+  match meth with
+  | TMillis stq => (1000 * Z.max 1 (qtrunc stq), 1000 * Z.max 1 (qtrunc stq))
+  | TUnit u sk =>
+      let k := skip_of sk in
+      match u with
+      | USecond => (k * 1000000, k * 1000000)
+      | UMinute => (k * 60000000, k * 60000000)
+      | UHour => (k * 3600000000, k * 3600000000)
+      | UDay => (D, k * D)
+      | UWeek => (7 * D, 7 * D)
+      | UMonth => (28 * k * D, 31 * k * D)
+      | UYear => (365 * k * D, 366 * k * D)
+      end
+  end.
+
+Lemma row_ok_eq (T : Z -> Prop) a b a' b' : a = a' -> b = b' -> row_ok T a b -> row_ok T a' b'.
+Proof. intros -> ->. auto. Qed.
+
+(* the row of every method tickMethod can produce *)
+Theorem meth_row_bounds e0 e1 m meth : tick_method_of e0 e1 m = Ok meth ->
+  row_ok (meth_ticks meth) (fst (meth_bounds meth)) (snd (meth_bounds meth)) /\
+  snd (meth_bounds meth) <= 2 * fst (meth_bounds meth).
+Proof.
+  intros EM. destruct (method_cases _ _ _ _ EM) as [[st ->]|[[sk ->]|(u & k & -> & I)]];
+    cbn [meth_ticks meth_bounds fst snd].
+  - split; [apply multiples_row|]; lia.
+  - pose proof (skip_of_pos sk) as Hsk. split; [apply (year_row _ Hsk)|lia].
+  - assert (Hk : 1 <= k).
+    { unfold scale_methods in I. cbn [In] in I. repeat (destruct I as [[= <- <-]|I]); try lia; try contradiction. }
+    rewrite (skip_of_inject k Hk).
+    unfold scale_methods in I. cbn [In] in I.
+    repeat (destruct I as [[= <- <-]|I]); try contradiction; cbn [fst snd]; (split; [|lia]).
+    + apply (second_rows 1); cbn; tauto.
+    + apply (second_rows 5); cbn; tauto.
+    + apply (second_rows 15); cbn; tauto.
+    + apply (second_rows 30); cbn; tauto.
+    + apply (minute_rows 1); cbn; tauto.
+    + apply (minute_rows 5); cbn; tauto.
+    + apply (minute_rows 15); cbn; tauto.
+    + apply (minute_rows 30); cbn; tauto.
+    + apply (hour_rows 1); cbn; tauto.
+    + apply (hour_rows 3); cbn; tauto.
+    + apply (hour_rows 6); cbn; tauto.
+    + apply (hour_rows 12); cbn; tauto.
+    + eapply row_ok_eq; [| |apply day1_row]; lia.
+    + apply day2_row.
+    + apply week_row.
+    + eapply row_ok_eq; [| |apply month1_row]; lia.
+    + eapply row_ok_eq; [| |apply month3_row]; lia.
+    + eapply row_ok_eq; [| |apply (year_row 1); lia]; lia.
+Qed.
+
+(* the ticks of a domain: all in the method's tick set, gaps within the row's bounds *)
+Theorem ticks_row d0 d1 m l meth :
+  valid d0 -> valid d1 -> ms_resolution d0 -> ms_resolution d1 ->
+  ts_ticks d0 d1 m = Ok l ->
+  tick_method_of (to_ms (dom_lo d0 d1)) (to_ms (dom_hi d0 d1)) m = Ok meth ->
+  Forall (fun t => meth_ticks meth (to_us t)) l /\
+  Sorted (fun x y => fst (meth_bounds meth) <= to_us y - to_us x <= snd (meth_bounds meth)) l.
+Proof.
+  intros V0 V1 M0 M1 H EM.
+  destruct (ts_ticks_run d0 d1 m l V0 V1 H) as (meth' & t1 & EM' & Vt1 & Et1 & R).
+  rewrite EM in EM'. injection EM' as <-.
+  destruct (dom_lo_hi d0 d1) as [Hle Hc].
+  assert (Vlo : valid (dom_lo d0 d1)) by (destruct Hc as [[-> _]|[-> _]]; assumption).
+  assert (Mlo : ms_resolution (dom_lo d0 d1)) by (destruct Hc as [[-> _]|[-> _]]; assumption).
+  assert (Mhi : ms_resolution (dom_hi d0 d1)) by (destruct Hc as [[_ ->]|[_ ->]]; assumption).
+  assert (Mt1 : ms_resolution t1) by (unfold ms_resolution in *; rewrite Et1; lia).
+  assert (EN : enumerates (meth_ticks meth) (to_us (dom_lo d0 d1)) (to_us t1) (map to_us l)).
+  { destruct meth as [stq|u sk]; cbn [meth_ticks].
+    - exact (ms_range_enumerates _ _ _ _ Mlo Mt1 R).
+    - exact (range_enumerates _ _ _ _ _ Vlo Vt1 Mlo R). }
+  destruct (meth_row_bounds _ _ _ _ EM) as [(Pg & _ & Sp & Dn) _].
+  split.
+  - apply Forall_forall. intros t Ht. apply (proj2 EN). apply in_map. assumption.
+  - apply (Sorted_map_to_us (fun a b => fst (meth_bounds meth) <= b - a <= snd (meth_bounds meth))).
+    exact (enum_gaps _ _ _ Sp Dn _ _ _ EN).
+Qed.
+
+Lemma Sorted_nth {A} (R : A -> A -> Prop) : forall l i x y, Sorted R l ->
+  nth_error l i = Some x -> nth_error l (S i) = Some y -> R x y.
+Proof.
+  induction l as [|a l IH]; intros i x y S Hx Hy; [destruct i; discriminate|].
+  apply Sorted_inv in S. destruct S as [S1 S2]. destruct i as [|i].
+  - cbn in Hx, Hy. injection Hx as <-. destruct l as [|b l]; [discriminate|].
+    cbn in Hy. injection Hy as <-. apply HdRel_inv in S2. assumption.
+  - cbn in Hx. change (nth_error (a :: l) (S (S i))) with (nth_error l (S i)) in Hy.
+    eapply IH; eassumption.
+Qed.
+
+(* ---------- the millisecond method never steps by more than a second ------- *)
+Lemma qtrunc_le_int q k : 0 <= k -> (q <= inject_Z k)%Q -> qtrunc q <= k.
+Proof.
+  destruct q as [n d]. unfold Qle, qtrunc, inject_Z. cbn [Qnum Qden]. intros Hk H.
+  destruct (Z_lt_le_dec n 0) as [N|N].
+  - pose proof (Z.quot_opp_l (- n) (Zpos d) ltac:(lia)) as E. rewrite Z.opp_involutive in E.
+    pose proof (Z.quot_pos (- n) (Zpos d) ltac:(lia) ltac:(lia)). lia.
+  - rewrite Z.quot_div_nonneg by lia. apply Z.div_le_upper_bound; lia.
+Qed.
+
+Lemma lin_step_le_1000 lo hi m st : (lo <= hi)%Q -> 0 < m ->
+  ((hi - lo) / inject_Z m < 1000)%Q -> lin_tick_step lo hi m = Ok st -> (st <= 1000)%Q.
+Proof.
+  intros Hle Hm Ht H. destruct (Qlt_le_dec lo hi) as [Hlt|Hge].
+  - pose proof (lin_tick_step_eq lo hi m st Hlt Hm H) as E.
+    assert (HS : (0 < hi - lo)%Q) by lra.
+    destruct (Scale.TickStepProofs.tick_step_spec (hi - lo) m HS Hm) as [[A _] (c & Ec & C)].
+    set (e := Scale.Ticks.ilog10 ((hi - lo) / inject_Z m)) in *.
+    pose proof (inject_Z_pos m Hm) as Pm.
+    assert (X : ((hi - lo) / inject_Z m * inject_Z m == hi - lo)%Q) by (field; lra).
+    assert (P : (Scale.Ticks.pow10 e < Scale.Ticks.pow10 3)%Q).
+    { change (Scale.Ticks.pow10 3) with 1000%Q. nra. }
+    apply Scale.IlogProofs.pow10_lt_inv in P.
+    pose proof (Scale.IlogProofs.pow10_le_mono e 2 ltac:(lia)) as P2.
+    change (Scale.Ticks.pow10 2) with 100%Q in P2.
+    pose proof (Scale.IlogProofs.pow10_pos e) as P0.
+    rewrite E, Ec. unfold Scale.TickStepProofs.step_case in C.
+    destruct C as [[Q _]|[[Q _]|[[Q _]|[Q _]]]]; rewrite Q; lra.
+  - unfold lin_tick_step in H. cbv zeta in H.
+    assert (E0 : Qeq_bool (hi - lo) 0 = true) by (apply Qeq_bool_iff; lra).
+    rewrite E0 in H. injection H as <-. lra.
+Qed.
+
+Lemma ms_method_step e0 e1 m st : (e0 <= e1)%Q -> tick_method_of e0 e1 m = Ok (TMillis st) ->
+  Z.max 1 (qtrunc st) <= 1000.
+Proof.
+  intros Hle EM. unfold tick_method_of in EM. destruct (m <=? 0) eqn:Cm; [discriminate|]. cbv zeta in EM.
+  assert (Hm : 0 < m) by lia.
+  set (t := ((e1 - e0) / inject_Z m)%Q) in *.
+  destruct (bisect_spec scale_steps t) as [_ B2].
+  set (i := bisect scale_steps t) in *. clearbody i.
+  assert (Et : t = ((e1 - e0) / inject_Z m)%Q) by reflexivity. clearbody t.
+  destruct (Nat.eqb i (length scale_steps)).
+  - destruct (lin_tick_step _ _ m); discriminate.
+  - destruct (Nat.eqb i 0) eqn:I0.
+    + apply Nat.eqb_eq in I0. subst i. specialize (B2 ltac:(cbn; lia)). cbn [nth scale_steps] in B2.
+      change (inject_Z 1000) with 1000%Q in B2. rewrite Et in B2.
+      destruct (lin_tick_step e0 e1 m) as [s| |] eqn:Es; try discriminate. injection EM as <-.
+      pose proof (lin_step_le_1000 _ _ _ _ Hle Hm B2 Es) as L.
+      pose proof (qtrunc_le_int _ 1000 ltac:(lia) L). lia.
+    + destruct (nth _ scale_methods _) as [u k]. discriminate.
+Qed.
+
+(* ---------- an observed gap fixes the alignment of all ticks ---------------- *)
+(* a boundary of u is a boundary of v *)
+Definition implies_unit (u v : unit_id) : bool :=
+  match u, v with
+  | UYear, (UYear | UMonth | UDay | UHour | UMinute | USecond) => true
+  | UMonth, (UMonth | UDay | UHour | UMinute | USecond) => true
+  | UWeek, (UWeek | UDay | UHour | UMinute | USecond) => true
+  | UDay, (UDay | UHour | UMinute | USecond) => true
+  | UHour, (UHour | UMinute | USecond) => true
+  | UMinute, (UMinute | USecond) => true
+  | USecond, USecond => true
+  | _, _ => false
+  end.
+
+Lemma boundary_implied u v x : implies_unit u v = true -> is_boundary u x -> is_boundary v x.
+Proof.
+  destruct (boundary_coarser x) as (YM & MD & WD & DH & HMi & MiS).
+  destruct u, v; cbn [implies_unit]; intros E B; try discriminate; auto 10.
+Qed.
+
+Theorem gap_implies_alignment d0 d1 m l i x y :
+  valid d0 -> valid d1 -> ms_resolution d0 -> ms_resolution d1 ->
+  ts_ticks d0 d1 m = Ok l ->
+  nth_error l i = Some x -> nth_error l (S i) = Some y ->
+  let G := to_us y - to_us x in
+  (1000000 <= G -> Forall (fun t => is_boundary USecond (to_us t)) l) /\
+  (60000000 <= G -> Forall (fun t => is_boundary UMinute (to_us t)) l) /\
+  (3600000000 <= G -> Forall (fun t => is_boundary UHour (to_us t)) l) /\
+  (D <= G -> Forall (fun t => is_boundary UDay (to_us t)) l) /\
+  (28 * D <= G -> Forall (fun t => is_boundary UMonth (to_us t)) l) /\
+  (365 * D <= G -> Forall (fun t => is_boundary UYear (to_us t)) l).
+Proof.
+  intros V0 V1 M0 M1 H Hx Hy G.
+  destruct (ts_ticks_run d0 d1 m l V0 V1 H) as (meth & t1 & EM & _).
+  destruct (ticks_row d0 d1 m l meth V0 V1 M0 M1 H EM) as [F S].
+  pose proof (Sorted_nth _ l i x y S Hx Hy) as [_ Gmax]. fold G in Gmax. clearbody G.
+  assert (Hle : (to_ms (dom_lo d0 d1) <= to_ms (dom_hi d0 d1))%Q).
+  { destruct (dom_lo_hi d0 d1) as [L _].
+    assert (0 <= to_ms (dom_hi d0 d1) - to_ms (dom_lo d0 d1))%Q; [|lra].
+    rewrite to_ms_diff. unfold Qle. cbn [Qnum Qden]. lia. }
+  destruct (method_cases _ _ _ _ EM) as [[st ->]|[[sk ->]|(u & k & -> & I)]].
+  - (* milliseconds: the step is at most one second *)
+    pose proof (ms_method_step _ _ _ _ Hle EM) as Hs. cbn [meth_bounds snd meth_ticks] in Gmax, F.
+    set (s := Z.max 1 (qtrunc st)) in *. assert (1 <= s) by (subst s; lia). clearbody s.
+    repeat split; intro HG; try (exfalso; lia).
+    assert (s = 1000) by lia. subst s.
+    eapply Forall_impl; [|exact F]. cbn. intros t Ht. unfold is_boundary. lia.
+  - (* years *)
+    cbn [meth_ticks] in F.
+    repeat split; intros _; (eapply Forall_impl; [|exact F]); cbn beta; intros t [B _];
+      (eapply boundary_implied; [|exact B]; reflexivity).
+  - assert (Hk : 1 <= k).
+    { unfold scale_methods in I. cbn [In] in I. repeat (destruct I as [[= <- <-]|I]); try lia; try contradiction. }
+    cbn [meth_bounds snd meth_ticks] in Gmax, F. rewrite (skip_of_inject k Hk) in Gmax, F.
+    unfold scale_methods in I. cbn [In] in I.
+    repeat (destruct I as [[= <- <-]|I]); try contradiction; cbn [snd] in Gmax;
+      (repeat split;
+       first [ intro HG; exfalso; lia
+             | intros _; (eapply Forall_impl; [|exact F]); cbn beta; intros t [B _];
+               (eapply boundary_implied; [|exact B]; reflexivity) ]).
+Qed.
